@@ -94,6 +94,29 @@ func newConcSecrets() *concSecrets {
 type concBufs struct {
 	checked int
 	hits    []string
+	kept    []keptOutput
+}
+
+// a message the library handed out (the slice itself, not a copy) and what it held at that moment
+type keptOutput struct {
+	label     string
+	buf, orig []byte
+}
+
+// what Send / Receive hand out belongs to the caller: it is kept by reference and looked at again when every
+// conversation of the process has finished (recheck)
+func (cb *concBufs) keep(label string, buf []byte) {
+	cb.kept = append(cb.kept, keptOutput{label, buf, append([]byte{}, buf...)})
+}
+
+func (cb *concBufs) recheck() (changed []string) {
+	for _, k := range cb.kept {
+		cb.checked++
+		if !bytes.Equal(k.buf, k.orig) {
+			changed = append(changed, fmt.Sprintf("%s: the message of %d bytes handed out as %.48q reads %.48q after the other conversations have run", k.label, len(k.orig), k.orig, k.buf))
+		}
+	}
+	return
 }
 
 // to be called before the library call; the function returned, after it
@@ -272,6 +295,24 @@ func concRun(seed int64, sy concSync, sec *concSecrets) ([]string, []otr3.ValidM
 		log = append(log, fmt.Sprintf("%s extrakey %x n=%d err=%s", a.tag, key, len(ts), otr3.VerifErrClass(err)))
 		push(a, ts)
 		settle()
+	}
+	// messages handed out by Send under a fragment size that is legal but leaves no room for a single payload
+	// byte (the message is then handed out whole): kept by reference, delivered at once, and compared with what
+	// they were when every conversation of the process has finished
+	if a.c.IsEncrypted() && b.c.IsEncrypted() {
+		b.c.SetFragmentSize(uint16(1 + r.Intn(17)))
+		for k := 0; k < 3; k++ {
+			age()
+			txt := []byte(fmt.Sprintf("whole %d of pair %s", k, pairTag))
+			ts, err := b.c.Send(txt)
+			log = append(log, fmt.Sprintf("%s send under a degenerate fragment size n=%d err=%s", b.tag, len(ts), otr3.VerifErrClass(err)))
+			for _, m := range ts {
+				bufs.keep(fmt.Sprintf("Send of conversation %s with fragment size below the header length", b.tag), m)
+			}
+			push(b, ts)
+			settle()
+		}
+		b.c.SetFragmentSize(0)
 	}
 	// error replies: the slices returned by Receive are kept (not copied) and looked at again at the
 	// end - a reply must not change after it has been handed out, whatever other conversations do
@@ -553,6 +594,9 @@ func init() {
 			dist["conc:caller-buffers-checked"] += cb.checked
 			for _, h := range cb.hits {
 				olog.viol("C20", "caller-buffer-modified", fmt.Sprintf("%s: %s", run, h))
+			}
+			for _, h := range cb.recheck() {
+				olog.viol("C20", "handed-out-message-modified", fmt.Sprintf("%s: %s", run, h))
 			}
 		}
 		solo := make([][]string, n)
